@@ -41,51 +41,62 @@ package method_evaluator
 //@ # (claimed: index and slice bounds in the function's own code; nil-ness of the evaluator's fields and
 //@ # the callees' own panics are not part of this claim)
 //@ func (*ti/eval/method_evaluator.replaceArraystrategy).evaluate
+//@   safederef[C04] base.GlobT
 //@   safe idx,slice
 //@   inline 2 1
 //@   witness idx#0 "a = [1]\na.replace"
 
 //@ func (*ti/eval/method_evaluator.addArrayStrategy).evaluate
+//@   safederef[C04] base.GlobT
 //@   safe idx,slice
 //@   inline 2 1
 //@   witness idx#0 "a = [1]\na + "
 
 //@ func (*ti/eval/method_evaluator.arrayAppendStrategy).evaluate
+//@   safederef[C04] base.GlobT
 //@   safe idx,slice
 //@   inline 2 1
 
 //@ func (*ti/eval/method_evaluator.concatArraystrategy).evaluate
+//@   safederef[C04] base.GlobT
 //@   safe idx,slice
 //@   inline 2 1
 
 //@ func (*ti/eval/method_evaluator.unshiftArraystrategy).evaluate
+//@   safederef[C04] base.GlobT
 //@   safe idx,slice
 //@   inline 2 1
 
 //@ func (*ti/eval/method_evaluator.sliceArrayStrategy).evaluate
+//@   safederef[C04] base.GlobT
 //@   requires m != nil && wfP(m.parser)
 //@   safe idx,slice
 //@   inline 2 1
 
 //@ func (*ti/eval/method_evaluator.hashMergeStrategy).evaluate
+//@   safederef[C04] base.GlobT
 //@   safe idx,slice
 //@   inline 2 1
 //@   witness idx#0 "h = {a: 1}\nh.merge do |a|\nend"
 
 //@ func (*ti/eval/method_evaluator.hashDestructionMergeStrategy).evaluate
+//@   safederef[C04] base.GlobT
 //@   safe idx,slice
 //@   inline 2 1
 //@   witness idx#0 "h = {a: 1}\nh.merge! do |k, a, b|\n  a\nend"
 
 //@ func (*ti/eval/method_evaluator.hashShiftStrategy).evaluate
+//@   safederef[C04] base.GlobT
 //@   safe idx,slice
 //@   inline 2 1
 
 //@ func (*ti/eval/method_evaluator.kernelYieldStrategy).evaluate
+//@   safederef[C04] base.GlobT
 //@   safe idx,slice
 //@   inline 2 1
 
 //@ func (*ti/eval/method_evaluator.kernelPrintStrategy).evaluate
+//@   safederef[C04] base.GlobT
 //@   safe idx,slice
 //@   inline 2 1
 
@@ -117,3 +128,24 @@ package method_evaluator
 //@   mapwrite[C24] base.MethodCallPoint value[len(value)-1].Point == p.FileName + ":" + strconv.Itoa(p.ErrorRow)
 //@   witness site:mapwrite.2#0 "def helper\n  1\nend\n\ndef run\n  helper\n  y = 2\nend\n" args "--llm-nav --target=helper" expect "call point: in.rb:7"
 //@   mapwrite[C24] base.MethodCallPoint value[len(value)-1].CallerFrame == ctx.frame && value[len(value)-1].CallerClass == ctx.class && value[len(value)-1].CallerMethod == ctx.method
+
+//@ # ---- C04: the hover hook (`base.GlobT = *methodT` on the queried row) never copies through nil ----
+//@ func (*ti/eval/method_evaluator.classMethodStrategy).evaluate
+//@   sitesonly
+//@   inline 2 1
+//@   safederef[C04] base.GlobT
+//@ func (*ti/eval/method_evaluator.instanceMethodStrategy).evaluate
+//@   sitesonly
+//@   inline 2 1
+//@   safederef[C04] base.GlobT
+//@ func (*ti/eval/method_evaluator.topLevelMethodStrategy).evaluate
+//@   sitesonly
+//@   inline 2 1
+//@   safederef[C04] base.GlobT
+//@ # (the lookups behind the hooks hand back a method whenever they report no error)
+//@ func (*ti/eval/method_evaluator.classMethodStrategy).getRequiredValues
+//@   inline 6 1
+//@   ensures[C04] isnil(result2) ==> result1 != nil
+//@ func (*ti/eval/method_evaluator.topLevelMethodStrategy).getRequiredValues
+//@   inline 6 1
+//@   ensures[C04] isnil(result2) ==> result1 != nil
